@@ -30,6 +30,9 @@ func ReducedSentences() []string {
 		}
 		out = append(out, "$[?("+l+" =~ /a/)]")
 		out = append(out, "$[?("+l+"=~/[/)]")
+		for _, re := range TrickyRegexes {
+			out = append(out, "$[?("+l+" =~ /"+re+"/)]")
+		}
 		out = append(out, "$[?("+l+")]")
 		out = append(out, "$[?(!"+l+")]")
 		out = append(out, "$[?(! "+l+")]")
@@ -45,10 +48,14 @@ func ReducedSentences() []string {
 	return out
 }
 
+// TrickyRegexes are regular expressions at the edge of Go's syntax (valid and invalid ones):
+// the documented restriction is "valid for Go as written".
+var TrickyRegexes = []string{"a)(b", "x)|(y", "^1)$|^(2$", "(", ")", "a**", "(?s:a)", "(?i)a", `\`, "a{2,1}", "(?P<n>a)", `\pL`, "[[:alpha:]]", "(?<n>a)", "a{1001}", `\Qa.b\E`, "(?s).", `\z`, "[a-", "(?i", `\8`, "x*+"}
+
 // Vocabulary is the terminal vocabulary of the grammar (token-level mutations, token soup).
 var Vocabulary = []string{
 	"$", "@", ".", "..", "*", "[", "]", "(", ")", "?(", "[?(", ")]", ",", ":", "'", "\"", "\\", "!", "&&", "||",
-	"==", "!=", "<", "<=", ">", ">=", "=~", "/", "/a/", "()", ".f1()", ".g1()", ".unknown()", "true", "false", "null",
+	"==", "!=", "<", "<=", ">", ">=", "=~", "/", "/a/", "=~/a)(b/", "=~ /x)|(y/", "=~/(/", "=~/)/", "=~/a{2,1}/", "=~/(?s:a)/", "()", ".f1()", ".g1()", ".unknown()", "true", "false", "null",
 	"True", "NULL", "0", "1", "-1", "+1", "007", "1.5", "1e2", "0x10", "'a'", "\"a\"", "a", "b", " ", "  ", "\t", "\n",
 	"\\u0041", "\\ud800", "\\n", "\\'", "\\\\", "é", "😀", "\x00", "\x7f", "[*]", "['a']", "[0]", "[0:1]", "[::2]", "[(1)]",
 	"9223372036854775807", "-9223372036854775808", "9223372036854775808", "2147483648", "-2147483649", "99999999999999999999",
